@@ -374,7 +374,7 @@ m('rr_new_other_error_value', 'benign', 'C17', RR,
   '        Ok((\n            Self::regenerate_from_seed_and_commitments(&randomizer_seed, signing_commitments)?,\n            randomizer_seed,\n        ))',
   '        let randomizer = match Self::regenerate_from_seed_and_commitments(&randomizer_seed, signing_commitments) {\n            Ok(r) => r,\n            Err(_) => return Err(Error::SerializationError),\n        };\n        Ok((randomizer, randomizer_seed))',
   'every failure to derive the randomizer reported as SerializationError')
-m('rr_new_seed_not_drawn', 'harmful', 'C16', RR,
+m('rr_new_seed_not_drawn', 'harmful', 'C17', RR,
   '        rng.fill_bytes(&mut randomizer_seed);\n', '', 'seed is all zeros, nothing drawn')
 m('rr_new_other_seed_returned', 'harmful', 'C17', RR,
   '            Self::regenerate_from_seed_and_commitments(&randomizer_seed, signing_commitments)?,\n            randomizer_seed,\n        ))',
@@ -567,3 +567,14 @@ m('bt_item_challenge_for_other_key', 'harmful', 'C19', B,
   'challenge computed for the key R')
 m('bt_item_keeps_other_signature', 'harmful', 'C19', B,
   '            vk: *vk,\n            sig: *sig,\n            c,', '            vk: *vk,\n            sig: Signature::new(sig.R, sig.z + sig.z),\n            c,', 'item stores a different response')
+
+# keys.rs :: generate_secret_polynomial (internal helper with two refusals in a row)
+m('gsp_guards_exchanged', 'benign', 'C06', K,
+  '    validate_num_of_signers(min_signers, max_signers)?;\n\n    if coefficients.len() != min_signers as usize - 1 {\n        return Err(Error::InvalidCoefficients);\n    }\n',
+  '    if min_signers < 1 || coefficients.len() != min_signers as usize - 1 {\n        return Err(Error::InvalidCoefficients);\n    }\n\n    validate_num_of_signers(min_signers, max_signers)?;\n',
+  'degree check made before the (n, t) check')
+m('gsp_degree_guard_weakened', 'harmful', 'C03', K,
+  '    if coefficients.len() != min_signers as usize - 1 {\n        return Err(Error::InvalidCoefficients);', '    if coefficients.len() > min_signers as usize - 1 {\n        return Err(Error::InvalidCoefficients);',
+  'polynomial of lower degree accepted')
+m('gsp_secret_appended', 'harmful', 'C06', K,
+  '    coefficients.insert(0, secret.scalar);', '    coefficients.push(secret.scalar);', 'the secret becomes the LEADING coefficient')
